@@ -33,12 +33,13 @@ WALK = os.path.join(core.BIN, "walk")
 SHM = "/dev/shm"
 
 FILE_NAMES = ["a", "b", "B", "f1", "a-1", "a.1", "c+", "d(", "e[", "ż", "x.log", "y.tmp", "bar", "ba",
-              "foo", ".h", ".hf", "barn", "z.LOG", "+(x)", "{a,b}"]
+              "foo", ".h", ".hf", "barn", "z.LOG", "+(x)", "{a,b}", "É.txt", "Ż"]
 DIR_NAMES = ["d", "D", "a-1", "a.1", "c+", "d(", "e[", "ż", "bar", "ba", "b", "foo", ".hd", "sub", "barn",
-             "+(x)", "@(y)", "[z]", "{a,b}", "?(q)"]
+             "+(x)", "@(y)", "[z]", "{a,b}", "?(q)", "ÄRGER", "Ż", "Éa"]
+UPPER_NAMES = ["ÄRGER", "Ż", "ÉTÉ", "ŻÓŁW", "Äb", "xÉ"]
 META_NAMES = ["+(x)", "@(y)", "[z]", "{a,b}", "?(q)", "*(s)", "+(a|b)", "@(d)x"]
 LINK_NAMES = ["l", "l2", "lk-1", ".hl", "lż", "m"]
-TOP_NAMES = ["top", "t-ż.1", "r(1", ".htop", "t+[x", "+(x)", "@(y)", "[z]", "{a,b}"]
+TOP_NAMES = ["top", "t-ż.1", "r(1", ".htop", "t+[x", "+(x)", "@(y)", "[z]", "{a,b}", "ÄRGER", "Żż"]
 SIZES = [0, 1, 2, 3, 5, 9]
 # literals usable in ignore files: no gitignore glob syntax ('[' would make the line invalid)
 IGN_DIRS = [n for n in DIR_NAMES[:12] if not any(ch in n for ch in "[]{}*?!#\\")]
@@ -162,6 +163,8 @@ def gen_directed(rng, which):
     while a == d:
         a = rng.choice(nice)
     f = rng.choice([n for n in FILE_NAMES if not n.startswith(".") and not any(ch in n for ch in "{}*?")])
+    while f in (d, a, "g", "h", "o", "x", "pad", "deep", "top.f"):
+        f = rng.choice(["f1", "B", "x.log", "a-1"])
     first, second = (d, a) if rng.chance(3, 4) else (a, d)      # creation order decides the LIFO order
     entries = [[first, "D", None], [second, "D", None], [d + "/" + f, "F", 2], [d + "/g", "F", 3],
                [a + "/l", "L", ["T", d, rng.chance(1, 3)]]]
@@ -206,6 +209,52 @@ def gen_directed(rng, which):
             roots = [a, a, "./" + a] if rng.chance(1, 2) else [inner, a + "/../" + inner, inner]
         if rng.chance(1, 3):
             cwd = a
+    elif which == "icase_upper":
+        # --ignore-case with literal pattern prefixes over names with upper-case non-ASCII letters,
+        # in a directory below the input path and in the working-directory prefix of a relative pattern
+        o["follow"] = False
+        o["icase"] = True
+        u1, u2 = rng.choice(UPPER_NAMES), rng.choice(UPPER_NAMES)
+        while u2 in (a, d, f):
+            u2 = rng.choice(UPPER_NAMES)
+        entries = [[u2, "D", None], [u2 + "/" + f, "F", 2], [u2 + "/g", "F", 3], [u2 + "/" + d, "D", None],
+                   [u2 + "/" + d + "/h", "F", 2], [a, "D", None], [a + "/o", "F", 2], ["x", "F", 2]]
+        spelled = rng.choice([u2, u2, u2.lower(), u2.upper()])
+        how = rng.below(4)
+        if how == 0:
+            o["paths"] = ["TOPLIT:" + spelled + "/**"]
+            o["_expect_rel"] = ["under", u2]
+        elif how == 1:
+            o["paths"] = [gesc(spelled) + "/**"]              # relative: the cwd prefix holds the top name
+            o["_expect_rel"] = ["under", u2]
+        elif how == 2:
+            o["excludes"] = ["TOPLIT:" + spelled + "/**"]
+            o["_expect_rel"] = ["not_under", u2]
+        else:
+            o["paths"] = ["TOPLIT:" + spelled + "/" + d + "/*", "TOPLIT:" + a + "/**"]
+        o["_patkind"] = "icase_upper_nonascii"
+        roots = [""]
+        return {"top": u1 if rng.chance(2, 3) else "top", "entries": entries, "shm": None}, o, roots, ""
+    elif which == "twins":
+        # component-boundary twins: the concatenated component bytes of two different paths are equal
+        # (a/bc.txt vs ab/c.txt, x/yz vs xy/z, a/b/c vs ab/c).  With -L every path goes through the visited set.
+        o["follow"] = rng.chance(4, 5)
+        shape = rng.below(4)
+        if shape == 0:
+            entries = [["a", "D", None], ["ab", "D", None], ["a/bc.txt", "F", 2], ["ab/c.txt", "F", 3]]
+        elif shape == 1:
+            entries = [["x", "D", None], ["xy", "D", None], ["x/yz", "F", 2], ["xy/z", "F", 2], ["x/y", "F", 3]]
+        elif shape == 2:
+            entries = [["a", "D", None], ["a/b", "D", None], ["ab", "D", None], ["a/b/c", "F", 2], ["ab/c", "F", 3],
+                       ["a/bc", "F", 2]]
+        else:
+            entries = [["a", "D", None], ["ab", "D", None], ["a/bc.txt", "F", 2], ["ab/c.txt", "H", "a/bc.txt"],
+                       ["a/b", "D", None], ["a/b/c.txt", "F", 2]]
+        if rng.chance(1, 2):
+            entries.append(["pad", "F", 2])
+        o["depth"] = rng.choice([None, None, 3])
+        roots = [""] if rng.chance(2, 3) else ["a", "ab"]
+        return {"top": rng.choice(["top", "t", "tw"]), "entries": entries, "shm": None}, o, roots, ""
     elif which == "cwd_meta":
         # relative patterns are anchored at a working directory whose name is glob / ext-glob syntax
         o["follow"] = False
@@ -261,6 +310,8 @@ def materialize(spec, base, shm_base):
                 f.write("".join(x + "\n" for x in a))
         elif k == "O":
             os.mkfifo(full)
+        elif k == "H":
+            os.link(os.path.join(top, a), full)
         elif k == "L":
             how, t, absolute = a
             if how == "R":
@@ -410,7 +461,7 @@ def gen_options(rng, top, dirs_abs, files_abs, have_links, have_ignore, k3_dir=N
     o["one_fs"] = rng.chance(1, 5)
     o["min"] = rng.choice([1, 1, 0, 2, 3])
     o["max"] = rng.choice([None, None, 2, 3, 5])
-    k = rng.below(13)
+    k = rng.below(15)
     o["_patkind"] = "none"
     if k == 0:
         o["names"] = [rng.choice(["*.log", "a*", "?", "[ab]*", "ż", "*-1", "*.1", "b*"])]
@@ -447,6 +498,34 @@ def gen_options(rng, top, dirs_abs, files_abs, have_links, have_ignore, k3_dir=N
         import re as _re
         o["paths"] = [_re.escape(rng.choice(dirs_abs)) + "/.*"]
         o["_patkind"] = "regex_path"
+    elif k == 8 and len(dirs_abs) >= 2:
+        # several --path globs with diverging literal prefixes (a file is selected iff ANY of them matches)
+        ds = rng.shuffle(dirs_abs)[:2 + rng.below(2)]
+        forms = [rng.choice(["/**", "/**", "/*", "/*.log", "/?*"]) for _ in ds]
+        rel = rng.chance(1, 3)
+        o["paths"] = [("REL:" + d) if (rel and f == "/**") else gesc(d) + f for d, f in zip(ds, forms)]
+        o["_patkind"] = "multi_path"
+        if all(f == "/**" for f in forms):
+            o["_expect"] = ["multi", list(ds), []]
+        if rng.chance(1, 3):
+            x = rng.choice(dirs_abs)
+            o["excludes"] = [gesc(x) + "/**"]
+            if "_expect" in o:
+                o["_expect"][2] = [x]
+    elif k == 9 and len(dirs_abs) >= 2:
+        xs = rng.shuffle(dirs_abs)[:2 + rng.below(2)]
+        o["excludes"] = [gesc(x) + "/**" for x in xs]
+        o["_patkind"] = "multi_exclude"
+        o["_expect"] = ["multi", [], list(xs)]
+        if rng.chance(1, 2):
+            d = rng.choice(dirs_abs)
+            o["paths"] = [gesc(d) + "/**"]
+            o["_expect"][1] = [d]
+    elif k == 10:
+        o["names"] = rng.shuffle(["*.log", "a*", "?", "[ab]*", "ż", "*-1", "*.1", "b*", "Ż", "É*"])[:2 + rng.below(2)]
+        o["_patkind"] = "multi_name"
+        if rng.chance(1, 3) and len(dirs_abs) >= 2:
+            o["paths"] = [gesc(d) + "/**" for d in rng.shuffle(dirs_abs)[:2]]
     if k3_dir is not None:
         o.pop("_expect", None)
         # K3: an exclude pattern that is a proper prefix (inside a component) of a directory name
@@ -455,8 +534,8 @@ def gen_options(rng, top, dirs_abs, files_abs, have_links, have_ignore, k3_dir=N
         o["paths"] = []
         o["regex"] = False
         o["_patkind"] = "exclude_prefix"
-    if o["names"] or o["paths"]:
-        o["icase"] = o["icase"] or rng.chance(1, 5)
+    if o["names"] or o["paths"] or o["excludes"]:
+        o["icase"] = o["icase"] or rng.chance(1, 3)
     return o
 
 
@@ -845,18 +924,24 @@ def evaluate(ctx, cases, model, do_cli, fclones):
 
         # 2b. the simple pattern kinds have an obvious documented meaning: check the real selector against it
         if o.get("_expect"):
-            ekind, edir = o["_expect"]
+            ex = o["_expect"]
+            if ex[0] == "under":
+                incl, excl = [ex[1]], []
+            elif ex[0] == "not_under":
+                incl, excl = [], [ex[1]]
+            else:
+                incl, excl = ex[1], ex[2]
             fold = (lambda x: x.lower()) if o["icase"] else (lambda x: x)
+            below = lambda q, d: fold(q).startswith(fold(d) + "/")
             for q in c["eval"]:
                 if c["kinds"][q] not in ("F", "L"):
                     continue
-                under = fold(q).startswith(fold(edir) + "/")
-                want = under if ekind == "under" else not under
+                # selected iff it matches ANY include path (or there is none) and NO exclude
+                want = (not incl or any(below(q, d) for d in incl)) and not any(below(q, d) for d in excl)
                 if sel_file(q) != want:
                     ctx.violation({"kind": "selector_disagrees_with_documented_pattern", "pattern_kind": o["_patkind"]},
-                                  "%s %s: matches_full_path(%s) = %s, documented meaning says %s (cwd %s)" % (
-                                      "--path" if o["paths"] else "--exclude", (o["paths"] or o["excludes"])[0], q,
-                                      sel_file(q), want, c["cwd"]),
+                                  "--path %s --exclude %s%s: matches_full_path(%s) = %s, documented meaning says %s (cwd %s)" % (
+                                      o["paths"], o["excludes"], " -i" if o["icase"] else "", q, sel_file(q), want, c["cwd"]),
                                   dict(replay, path=q), found_input=True)
                     break
 
@@ -1029,10 +1114,13 @@ def run(ctx):
             if ti % 8 == 0:
                 which = ["n1_depth", "n1_roots", "n1_ignore", "n5", "n2"][(ti // 8) % 5]
                 extra = ["ov_depth", "ov_ignore", "ov_repeat", "cwd_meta"][(ti // 8) % 4]
-                for wi, which in enumerate((which, extra, "cwd_meta" if extra != "cwd_meta" else "ov_depth")):
+                for wi, which in enumerate((which, extra, "cwd_meta" if extra != "cwd_meta" else "ov_depth",
+                                            "icase_upper", "twins")):
                     dspec, dopts, droots, dcwd = gen_directed(rng, which)
                     dtree = prepare(ctx, dspec, "d%d_%d" % (ti, wi), rng, False)
                     dopts["paths"] = [gesc(dtree["top"] + "/" + x[4:-3]) + "/**" if x.startswith("TOP:") else x for x in dopts["paths"]]
+                    for key in ("paths", "excludes"):
+                        dopts[key] = [gesc(dtree["top"]) + "/" + x[7:] if x.startswith("TOPLIT:") else x for x in dopts[key]]
                     if "_expect_rel" in dopts:
                         kind_, rel_ = dopts.pop("_expect_rel")
                         dopts["_expect"] = [kind_, os.path.join(dtree["top"], rel_)]
